@@ -420,6 +420,9 @@ def _generator_rule(db, rep):
     else:
         r6.ok('registry-accessors', 'AddUID inserts, FreeUID erases, IsTaken tests membership')
     # membership changes refresh the text-side graphs as well (shared with C07 r1, thesaurus family)
+    r8 = rep.rule('r8', 'SELF-REFERENCE: a schema object whose member refers back to the object (the ordered list asks its owner for the kind of a constituent) is never copied or moved memberwise, otherwise the copy orders its list by the kinds stored in the original', 5)
+    from rules.shared_selfref import selfref_rule
+    selfref_rule(db, r8, ['ccl::semantic::', 'ccl::ops::', 'ccl::oss::', 'ccl::src::'])
     r7 = rep.rule('r7', 'VIEWS (shared with C07 r1): a membership change of schema / thesaurus storage is followed by the removal or rebuild in every derived graph', 10)
     from rules import C07
     from engine.modset import ModSets
